@@ -832,3 +832,192 @@ func init() {
 			return obs
 		}})
 }
+
+// MINIFY.qualified-refs-total — C17: a private definition stays reachable
+// through a package-qualified reference (`pkg:name`) only because the minifier
+// records EVERY qualified symbol written in evaluated position and keeps the
+// definitions they name.  The recorder is one recursive walk; it must look at
+// every child of every list that is not quoted.  A walk that chooses its
+// children by the head symbol (skipping quasiquote templates, say) misses the
+// references macros make on behalf of their callers.
+func init() {
+	register(&Rule{ID: "MINIFY.qualified-refs-total", Floor: 1,
+		Doc: "recordQualifiedReferences recurses over the whole of <node>.Cells of every list, and the only conditions that can keep a list from that loop are tests of the node itself (nil, its Type, IsQuoted(), an empty Cells) — never its head symbol or its contents: a `pkg:name` written anywhere in evaluated or template position protects the definition it names",
+		Run: func(c *Ctx) []Obligation {
+			const rid = "MINIFY.qualified-refs-total"
+			fn, fd, pkg := c.LookupFunc("minifier.recordQualifiedReferences")
+			if fn == nil || fd.Type.Params == nil || len(fd.Type.Params.List) == 0 || len(fd.Type.Params.List[0].Names) == 0 {
+				return []Obligation{anchorMissing(rid, "minifier.recordQualifiedReferences")}
+			}
+			u := FuncUnit{fn, fd, pkg}
+			info := pkg.TypesInfo
+			node := info.Defs[fd.Type.Params.List[0].Names[0]]
+			isNodeSel := func(e ast.Expr, fld string) bool {
+				se, ok := ast.Unparen(e).(*ast.SelectorExpr)
+				return ok && se.Sel.Name == fld && identObj(info, se.X) == node
+			}
+			// atoms that only look at the node itself
+			var okCond func(e ast.Expr) bool
+			okCond = func(e ast.Expr) bool {
+				e = ast.Unparen(e)
+				switch x := e.(type) {
+				case *ast.UnaryExpr:
+					return x.Op == token.NOT && okCond(x.X)
+				case *ast.BinaryExpr:
+					switch x.Op {
+					case token.LAND, token.LOR:
+						return okCond(x.X) && okCond(x.Y)
+					case token.EQL, token.NEQ, token.LSS, token.GTR, token.LEQ, token.GEQ:
+						side := func(a ast.Expr) bool {
+							a = ast.Unparen(a)
+							if identObj(info, a) == node || isNodeSel(a, "Type") {
+								return true
+							}
+							if ce, ok := a.(*ast.CallExpr); ok && len(ce.Args) == 1 {
+								if id, ok := ast.Unparen(ce.Fun).(*ast.Ident); ok && id.Name == "len" && isNodeSel(ce.Args[0], "Cells") {
+									return true
+								}
+							}
+							if tv, ok := info.Types[a]; ok && (tv.Value != nil || tv.IsNil()) {
+								return true
+							}
+							return false
+						}
+						return side(x.X) && side(x.Y)
+					}
+				case *ast.CallExpr:
+					if se, ok := ast.Unparen(x.Fun).(*ast.SelectorExpr); ok && se.Sel.Name == "IsQuoted" && identObj(info, se.X) == node && len(x.Args) == 0 {
+						return true
+					}
+				}
+				return false
+			}
+			// the full-range recursion
+			var loops []*ast.RangeStmt
+			var partial []*ast.RangeStmt
+			ast.Inspect(fd.Body, func(n ast.Node) bool {
+				rs, ok := n.(*ast.RangeStmt)
+				if !ok {
+					return true
+				}
+				rec := false
+				for _, ce := range callsIn(rs.Body, false) {
+					if originOf(Callee(info, ce)) == fn && len(ce.Args) > 0 && rs.Value != nil && identObj(info, ce.Args[0]) == identObj(info, rs.Value) {
+						rec = true
+					}
+				}
+				if !rec {
+					return true
+				}
+				if isNodeSel(rs.X, "Cells") {
+					loops = append(loops, rs)
+				} else {
+					partial = append(partial, rs)
+				}
+				return true
+			})
+			var obs []Obligation
+			if len(loops) == 0 {
+				return []Obligation{mkOb(c, rid, u, "recursion over the children", fd, Violated, "no loop recurses over the whole of "+node.Name()+".Cells: some children of an evaluated list are never searched for qualified references", true)}
+			}
+			loop := loops[0]
+			path := enclosingPath(fd.Body, loop)
+			bad := ""
+			for i, anc := range path {
+				switch a := anc.(type) {
+				case *ast.IfStmt:
+					if !okCond(a.Cond) {
+						bad = "the loop runs only under `" + types.ExprString(a.Cond) + "`"
+					}
+				case *ast.CaseClause:
+					// a case of `switch node.Type`
+					if i > 0 {
+						if sw, ok := path[i-1].(*ast.BlockStmt); ok && i > 1 {
+							if ss, ok := path[i-2].(*ast.SwitchStmt); ok && ss.Tag != nil && !isNodeSel(ss.Tag, "Type") {
+								bad = "the loop is a case of a switch on `" + types.ExprString(ss.Tag) + "`"
+							}
+							_ = sw
+						}
+					}
+				case *ast.ForStmt, *ast.RangeStmt, *ast.FuncLit, *ast.SelectStmt, *ast.TypeSwitchStmt:
+					if anc != ast.Node(loop) {
+						bad = "the loop is nested in another construct"
+					}
+				}
+			}
+			if bad != "" {
+				obs = append(obs, mkOb(c, rid, u, "recursion over the children", loop, Violated, bad+": a list can be skipped because of what it contains, so a qualified reference written inside it does not protect the definition it names", true))
+			} else {
+				obs = append(obs, mkOb(c, rid, u, "recursion over the children", loop, Proved, "every child of every list that reaches the loop is searched; the loop is conditional only on tests of the node itself", true))
+			}
+			// exits in front of the loop
+			ord := &ordinal{}
+			loopClause := enclosingCase(path)
+			ast.Inspect(fd.Body, func(n ast.Node) bool {
+				if _, ok := n.(*ast.FuncLit); ok {
+					return false
+				}
+				rs, ok := n.(*ast.ReturnStmt)
+				if !ok || rs.Pos() > loop.Pos() {
+					return true
+				}
+				rpath := enclosingPath(fd.Body, rs)
+				if cc := enclosingCase(rpath); cc != nil && loopClause != nil && cc != loopClause {
+					return true // a different case of the switch on node.Type
+				}
+				construct := ord.next("exit before the recursion")
+				guard := ""
+				okGuard := false
+				for _, anc := range rpath {
+					if is, ok := anc.(*ast.IfStmt); ok {
+						guard = types.ExprString(is.Cond)
+						okGuard = okCond(is.Cond)
+						if !okGuard {
+							break
+						}
+					}
+				}
+				if guard != "" && okGuard {
+					obs = append(obs, mkOb(c, rid, u, construct, rs, Proved, "guarded by `"+guard+"`, a test of the node itself", true))
+				} else {
+					obs = append(obs, mkOb(c, rid, u, construct, rs, Violated, "a list leaves the recorder before its children are searched, on a condition about its contents (`"+guard+"`): qualified references inside such a list do not protect the definitions they name, and the renamed definition is then unbound where the reference is evaluated", true))
+				}
+				return true
+			})
+			for _, p := range partial {
+				obs = append(obs, mkOb(c, rid, u, ord.next("partial recursion"), p, Proved, "an additional walk over part of the children; the full loop is checked separately", false))
+			}
+			return obs
+		}})
+}
+
+// enclosingPath: the chain of nodes from root down to (and including) target.
+func enclosingPath(root ast.Node, target ast.Node) []ast.Node {
+	var path, out []ast.Node
+	ast.Inspect(root, func(n ast.Node) bool {
+		if out != nil {
+			return false
+		}
+		if n == nil {
+			path = path[:len(path)-1]
+			return true
+		}
+		path = append(path, n)
+		if n == target {
+			out = append([]ast.Node(nil), path...)
+			return false
+		}
+		return true
+	})
+	return out
+}
+
+func enclosingCase(path []ast.Node) *ast.CaseClause {
+	var cc *ast.CaseClause
+	for _, n := range path {
+		if c, ok := n.(*ast.CaseClause); ok {
+			cc = c
+		}
+	}
+	return cc
+}
